@@ -1,0 +1,66 @@
+//go:build verif
+
+// Contracts for the deductive verification machinery in /verif (comment-only; compiled only with -tags=verif).
+package web
+
+// ---------------------------------------------------------------------------
+// C09: POST /datasets/:dataset/entities. While a full sync is running on the dataset, the entities of a request are
+// stored only after the request's sync id was accepted (it started the sync itself, or its id refreshed the lease of the
+// running sync); a request that ends a sync completes it only under the same condition.
+
+//@ assumed (*server.DsManager).IsDataset
+//@   pure
+//@ assumed (*server.DsManager).GetDataset
+//@   pure
+//@ assumed (*server.Dataset).IsProxy
+//@   pure
+//@ assumed (*server.Dataset).IsVirtual
+//@   pure
+//@ assumed (*server.Dataset).AsProxy
+//@   pure
+//@ assumed (*server.ProxyDataset).ForwardEntities
+//@   pure
+//@ assumed (*datasetHandler).lookupAuth
+//@   pure
+//@ assumed server.NewEntityStreamParser
+//@   pure
+//@ assumed server.HTTPFullsyncErr
+//@   pure
+//@ assumed server.HTTPGenericErr
+//@   pure
+//@ assumed server.AttemptStoreEntitiesErr
+//@   pure
+//@ assumed (echo.Context).Request
+//@   pure
+//@ assumed (echo.Context).NoContent
+//@   pure
+//@ assumed (*http.Request).Context
+//@   pure
+//@ assumed (server.EventBus).Emit
+//@   pure
+//@ assumed (*bus.EventBus).Emit
+//@   pure
+// the parser hands every parsed entity to the callback, which stores them in batches through StoreEntities: neither
+// touches the dataset's sync state flag, id or lease (StoreEntities only adds to the seen set)
+//@ assumed (*server.EntityStreamParser).ParseStream
+//@   preserves server.Dataset.fullSyncStarted, server.Dataset.fullSyncID, server.Dataset.fullSyncLease, server.Dataset.fullSyncSeen, server.Dataset.store, server.Dataset.ID, server.Dataset.InternalID, server.Dataset.WriteLock, web.datasetHandler.*
+
+//@ unit (*datasetHandler).processEntities
+//@   prop C09
+//@   ghost acceptedG bool = false
+//@   requires handler != nil && handler.datasetManager != nil
+//@   requires [callers-hold-no-lock] forall l int :: has($held, l) ==> lockLevel(l) < 1
+//@   at call GetDataset#1
+//@     assume $result != nil && $result.store != nil && !has($held, addrOf($result.WriteLock)) && foreign($result.fullSyncSeen) && ($result.fullSyncStarted ==> $result.fullSyncSeen != nil) && (!$result.fullSyncStarted ==> $result.fullSyncLease == nil)
+//@   at call StartFullSyncWithLease#1
+//@     ghost acceptedG := $result == nil
+//@   at call RefreshFullSyncLease#1
+//@     ghost acceptedG := $result == nil
+//@   at call ParseStream#1
+//@     assume forall i int :: 0 <= i && i < len(entities) ==> entities[i] != nil
+//@   at call ParseStream#1 before
+//@     assert [C09:entities-stored-during-a-sync-only-after-the-requests-sync-id-was-accepted] dataset.fullSyncStarted ==> acceptedG
+//@   at call StoreEntities#1 before
+//@     assert [C09:entities-stored-during-a-sync-only-after-the-requests-sync-id-was-accepted] dataset.fullSyncStarted ==> acceptedG
+//@   at call CompleteFullSync#1 before
+//@     assert [C09:a-sync-is-completed-only-by-a-request-whose-sync-id-was-accepted] acceptedG
